@@ -196,7 +196,9 @@ def process_scope(
             if pos >= end:
                 return pos
 
-            while pos < end and not isspace(buff[pos]) and buff[pos] != ";":
+            # only blanks and newlines end a word for bash; \r, form feed or
+            # non-ASCII spaces (str.isspace) are ordinary characters of the value
+            while pos < end and buff[pos] not in " \t\n;":
                 if buff[pos] == "'":
                     pos = walk_statement_no_parsing(buff, pos + 1, "'") + 1
                 elif buff[pos] in '"`':
@@ -317,7 +319,7 @@ def walk_command_complex(buff, pos, endchar, interpret_level):
             if buff[pos - 1] in ";\n":
                 return pos
         elif (interpret_level == COMMAND_PARSING and ch in ";\n") or (
-            interpret_level == SPACE_PARSING and isspace(ch)
+            interpret_level == SPACE_PARSING and ch in " \t\n"
         ):
             return pos
         elif ch == "\\":
